@@ -51,7 +51,7 @@ def fam_patterns(T, d=1, thorough=False):
     return out
 
 
-def fam_outputs(T, thorough=False):
+def fam_outputs(T, thorough=False, d=1):
     """outputs: capacity, ramp (incl. first step vs last dispatch), start/running costs"""
     out = []
     cid = 0
@@ -65,7 +65,7 @@ def fam_outputs(T, thorough=False):
         if (sc, rc) == (2, 1) and not thorough:
             continue
         cid += 1
-        out.append(uc_cfg(cid, T, lo=lo, hi=hi, ramp=ramp, minrun=mr, mindown=md, run0=r0, off0=o0, last0=l0, startcost=sc, runcost=rc))
+        out.append(uc_cfg(cid, T, d=d, lo=lo, hi=hi, ramp=ramp, minrun=mr * d, mindown=md * d, run0=r0 * d, off0=o0 * d, last0=l0, startcost=sc, runcost=rc))
     return out
 
 
@@ -189,7 +189,7 @@ def run(tier, seed):
     th = tier == 'thorough'
     T = 6 if th else 5
     fams = [('patterns', fam_patterns(T, thorough=th), True), ('patterns_frac', fam_patterns(4 if not th else 5, d=2), True),
-            ('outputs', fam_outputs(4, thorough=th), False), ('fuel_heat', fam_fuel_heat(3 if not th else 4, thorough=th), False),
+            ('outputs', fam_outputs(4, thorough=th), False), ('outputs_step2', [c for k, c in enumerate(fam_outputs(3, thorough=th, d=2)) if th or k % 2 == seed % 2], False), ('fuel_heat', fam_fuel_heat(3 if not th else 4, thorough=th), False),
             ('min_load', fam_min_load(3 if not th else 4), False)]
     if th:
         fams.append(('patterns_T8', [c for k, c in enumerate(fam_patterns(8)) if k % 5 == seed % 5], True))
@@ -304,7 +304,7 @@ def run(tier, seed):
         chk.sample(dict(kind='trace of an optimised Plant run', trace=traces[0], verdict=verdicts[0]), limit=5)
     ramp_profiles(chk, tier, seed)
     chk.assumptions += ['consistent declared initial state (off => last dispatch 0; running => last dispatch within capacity)',
-                        'equal step lengths (the implementation scales ramp and last dispatch with the first step)',
+                        'equal step lengths within a grid (the implementation scales ramp and last dispatch with the first step); steps of one and two main time units',
                         'start/shutdown ramp profiles: plants that are off when the horizon begins, no ordinary ramp limit, whole-step profiles']
     return chk.finish(rule='all (min runtime, min downtime, initial state) tuples on T=%d with every one of the 2^T patterns pinned; output families '
                            '(capacity, ramp, costs); fuel/heat families; non-trivial = configuration with on-variables whose patterns were all compared' % T,
